@@ -581,24 +581,34 @@ func (b *builder) ignorable(ts uint32) {
 	s := b.s
 	n := 1 + s.N(2)
 	for i := 0; i < n; i++ {
+		var added *Event
 		switch s.Weighted(2, 2, 1, 1, 1, 1, 2) {
 		case 0:
-			b.add(evIgnorable, ts, 0x80, s.Bytes(s.N(12)), "IGNORABLE")
+			added = b.add(evIgnorable, ts, 0x80, s.Bytes(s.N(12)), "IGNORABLE")
 		case 1:
 			b.add(evUserVar, ts, 0, append([]byte{1, 0, 0, 0, 'x', 1}, s.Bytes(0)...), "USER_VAR")
 		case 2:
-			b.add(evIncident, ts, 0, append(le16(nil, 1), 0), "INCIDENT")
+			added = b.add(evIncident, ts, 0, append(le16(nil, 1), 0), "INCIDENT")
 		case 3:
-			b.add(byte(evTxContext+s.N(3)), ts, 0, s.Bytes(20+s.N(40)), "TYPE36-38")
+			added = b.add(byte(evTxContext+s.N(3)), ts, 0, s.Bytes(20+s.N(40)), "TYPE36-38")
 		case 4:
-			b.add(byte(39+s.N(60)), ts, 0, s.Bytes(s.N(30)), "UNKNOWN-TYPE")
+			added = b.add(byte(39+s.N(60)), ts, 0, s.Bytes(s.N(30)), "UNKNOWN-TYPE")
 		case 5:
-			b.add(evStop+0, ts, 0, nil, "STOP-like")
+			added = b.add(evStop+0, ts, 0, nil, "STOP-like")
 		case 6:
 			// unknown statement
 			sql := []string{"SAVEPOINT sp1", "FLUSH TABLES", "GRANT ALL ON *.* TO u", "ANALYZE TABLE t1", "XA START 'x'", "", "#comment", "REPLACE INTO t VALUES (1)", "CALL p()",
 				"SAVEPOINT BEGIN", "CALL COMMIT", "XA ROLLBACK", "-- BEGIN"}[s.N(13)]
 			b.queryEvent(ts, b.pickDB(), sql)
+		}
+		if added != nil && s.Chance(1, 4) {
+			// the next_position field of an event nobody decodes is not ours to judge:
+			// fabricated events carry 0, files beyond 4 GiB wrap it. Values next to the
+			// event's own length are the interesting ones (length-field confusions).
+			l := uint32(len(added.Raw))
+			np := []uint32{l, l + 1, l + 2, l + 3, l - 1, 0, 1, 4, 1<<32 - 1, uint32(s.U64())}[s.N(10)]
+			added.Raw = patchNextPos(added.Raw, np, b.curFile().Checksum)
+			added.Desc += fmt.Sprintf(" next_position=%d", np)
 		}
 	}
 }
